@@ -1,0 +1,38 @@
+//go:build verif
+
+// Copyright Istio Authors
+//
+// Licensed under the Apache License, Version 2.0 (the "License");
+// you may not use this file except in compliance with the License.
+// You may obtain a copy of the License at
+//
+//     http://www.apache.org/licenses/LICENSE-2.0
+//
+// Unless required by applicable law or agreed to in writing, software
+// distributed under the License is distributed on an "AS IS" BASIS,
+// WITHOUT WARRANTIES OR CONDITIONS OF ANY KIND, either express or implied.
+// See the License for the specific language governing permissions and
+// limitations under the License.
+
+package kubeauth
+
+import (
+	"istio.io/istio/pkg/cluster"
+	"istio.io/istio/pkg/verif"
+)
+
+// ---------------------------------------------------------------------------------------------
+// C09: the Kubernetes token authenticator yields exactly one identity, built from what the token
+// review returned, or an error; never a crash
+// ---------------------------------------------------------------------------------------------
+
+//verif:contract (*KubeJWTAuthenticator).authenticate
+//verif:prop C09
+func ctKubeJWTAuthenticate(a *KubeJWTAuthenticator, targetJWT string, clusterID cluster.ID) {
+	verif.Requires("authenticator-configured", a != nil && a.meshHolder != nil)
+	caller, err := a.authenticate(targetJWT, clusterID)
+	verif.Ensures("caller-or-error", (caller != nil) != (err != nil))
+	verif.Ensures("exactly-one-identity", caller == nil || len(caller.Identities) == 1)
+	verif.Ensures("identity-needs-namespace-and-service-account", caller == nil ||
+		(caller.KubernetesInfo.PodNamespace != "" && caller.KubernetesInfo.PodServiceAccount != ""))
+}
